@@ -230,12 +230,27 @@ pub fn spec(id: &str) -> Option<Spec> {
             real: vec!["MmioTransport / PciTransport / SomeTransport read_config_space, write_config_space, read_config_generation", "Transport::read_consistent", "read_config! users: VirtIOBlk::new, VirtIOSocket::new, VirtIOConsole::size, VirtIONetRaw::new, VirtIO9p::new"],
             stubbed: vec!["device: register-level MMIO / PCI reference devices with a scheduler-controlled configuration agent"],
         },
+        "C12" => Spec {
+            id: "C12",
+            level: "exploration",
+            rule: "stateful reference PCI function behind ConfigurationAccess (direct) and behind the real MmioCam (CAM and ECAM over the MMIO seam): BAR layouts drawn per run (none / memory 32 / below 1 MiB / memory 64 incl. sizes 2^32..2^63 / I/O / reserved type / 64-bit type in slot 5, prefetchable or not, assigned or not) with every initial command value 0..0x7ff, probed through bars() or per-slot bar_info(); seeded configuration addresses; seeded bus populations; seeded well-formed capability lists; cam_offset swept completely (exhaustive sub-space); non-trivial = a result was compared and matched",
+            batches: vec![
+                b("bars", scen::c12::bars_run, 20_000, 500_000),
+                b("addressing", scen::c12::addressing_run, 5000, 100_000),
+                b("enumerate", scen::c12::enumerate_run, 3000, 60_000),
+                b("capabilities", scen::c12::caps_run, 8000, 150_000),
+            ],
+            extras: vec![Extra { name: "cam_offset_sweep", f: scen::c12::cam_sweep }],
+            assumptions: vec!["cyclic capability lists are outside the statement and are not generated", "BARs with type bits but no writable address bits are not generated (an existing unit test pins the current result, so the intended semantics is ambiguous)"],
+            real: vec!["PciRoot::bar_info / bars / get_status_command / set_command / capabilities / enumerate_bus", "MmioCam, Cam::cam_offset", "CapabilityIterator, BusDeviceIterator"],
+            stubbed: vec!["device: stateful reference PCI function (sim/src/pcidev.rs)"],
+        },
         _ => return None,
     };
     Some(s)
 }
 
-pub const ALL: &[&str] = &["C01", "C02", "C03", "C04", "C05", "C06", "C08", "C09", "C10", "C13", "C14", "C15", "C16", "C17", "C18", "C19", "C20"];
+pub const ALL: &[&str] = &["C01", "C02", "C03", "C04", "C05", "C06", "C08", "C09", "C10", "C12", "C13", "C14", "C15", "C16", "C17", "C18", "C19", "C20"];
 
 pub fn find_batch(prop: &str, batch: &str) -> Option<fn()> {
     spec(prop)?.batches.iter().find(|b| b.name == batch).map(|b| b.f)
